@@ -37,7 +37,15 @@ def arc_from_theta(edge_point_1: PointType, edge_point_2: PointType, angle: floa
 
     center = pm - length * axis / 2 - rm * mag_chord / 2 / np.tan(angle / 2)
 
-    return f.arc_mid(axis, center, edge_point_1, edge_point_2)
+    mid = f.arc_mid(axis, center, edge_point_1, edge_point_2)
+
+    if abs(angle) > np.pi:
+        # arc_mid gives the half-way point of the shorter arc between the two points;
+        # a sector of more than half a turn goes round the other side of the centre
+        radial = (mid - center) - np.dot(mid - center, axis) * axis
+        mid = mid - 2 * radial
+
+    return mid
 
 
 @dataclasses.dataclass
